@@ -52,5 +52,17 @@ let () = iter_lines (fun line ->
     | ["case_diffs"; x; y] -> (match C_case_diffs.run f (zstr x) (z_of_int 0) (zstr y) (z_of_int 0) with Some (v, _) -> string_of_int (sign (int_of_z v)) | None -> "STUCK")
     | ["case_starts"; x; y] -> ret (C_case_starts.run f (zstr x) (z_of_int 0) (zstr y) (z_of_int 0))
     | ["squareroot"; x] -> ret (C_squareroot.run f (zbig x))
+    | ["ip_scan"; h] -> (match C_ip_scan.run f (zstr h) (z_of_int 0) [Z0; Z0; Z0; Z0] with Some (v, s) -> bigz v ^ " " ^ hexz s.C_ip_scan.a_ip__d | None -> "STUCK")
+    | ["ip_scanbracket"; h] ->
+        (match C_ip_scanbracket.run f (zstr h) (z_of_int 0) [Z0; Z0; Z0; Z0], K_ip_scanbracket.run f (zstr h) (z_of_int 0) [Z0; Z0; Z0; Z0] with
+         | Some (v, s), Some (v2, k) -> if v = v2 && int_of_z k.K_ip_scanbracket.v__oob = 0 then bigz v ^ " " ^ hexz s.C_ip_scanbracket.a_ip__d else "OOB-OR-DIFFERENT"
+         | _ -> "STUCK")
+    | ["ip_fmt"; h] -> (match C_ip_fmt.run f (List.init 20 (fun _ -> Z0)) (z_of_int 0) (zl h) with Some (v, s) -> bigz v ^ " " ^ hexz (take (int_of_z v) s.C_ip_fmt.a_s) | None -> "STUCK")
+    | ["quote_doit"; h] ->
+        let src = zl h in let n = z_of_int (List.length src) in
+        (match C_quote_doit.run f [] (z_of_int 0) (z_of_int 0) src n (z_of_int 1), K_quote_doit.run f [] (z_of_int 0) (z_of_int 0) src n (z_of_int 1) with
+         | Some (v, s), Some (_, k) -> if int_of_z k.K_quote_doit.v__oob <> 0 then "OOB" else
+             bigz v ^ " " ^ bigz s.C_quote_doit.v_saout__len ^ " " ^ hexz (take (int_of_z s.C_quote_doit.v_saout__len) s.C_quote_doit.a_saout__s)
+         | _ -> "STUCK")
     | _ -> "?" in
   print_string out; print_char '\n')
